@@ -76,12 +76,12 @@ def plan(tier, big=None):
     out = []
     smax = 2 if quick else 3
     for shape in rt.SHAPES:
-        if shape in ("quant", "wrapunits"):
+        if shape in ("quant", "quantbad", "wrapunits"):
             continue
         for n in range(0, smax + 1):
             out.append((shape, "str", n, "default"))
     out.append(("single", "str", smax + 1, "default"))
-    for shape in ("single", "seq", "set", "quant", "group"):
+    for shape in ("single", "seq", "set", "quant", "quantbad", "group"):
         out.append((shape, "int", 3 if quick else 6, "default"))
         out.append((shape, "float", 4 if quick else 6, "default"))
     for shape in ("single", "seq", "group"):
